@@ -498,11 +498,20 @@ def polar_pair(ctx, rule, rels):
                         nxt = expand_locals(f.node, c.args[i + 1])
                         n += 1
                         # the phase is the argument of the same z - or at least computed (a sign test, an arctan): never a literal
+                        quot = []
                         ok = isinstance(nxt, ast.Call) and dotted(nxt.func) in ("np.angle", "cmath.phase", "np.arctan2") and \
                             nxt.args and z in ast.unparse(nxt).replace(" ", "")
                         if cn in ("Squeezed", "Sgate", "squeezing", "squeeze") or "squeezed" in cn:
                             ok = ok or not isinstance(nxt, ast.Constant)
-                        ctx.ob(rule, f.site, ok, "" if ok else f"`{ast.unparse(c)[:60]}`: modulus of `{z}` but phase "
-                               f"`{ast.unparse(nxt)[:20]}` - the argument / sign of `{z[:40]}` is lost", role=f"polar:{cn}", line=c.lineno)
+                            # ... and never the one-argument arctan of a quotient: tan has period pi, so every phase outside
+                            # (-pi/2, pi/2] comes back in the wrong quadrant (arctan2 of numerator and denominator keeps it)
+                            quot = [q for q in ast.walk(nxt) if isinstance(q, ast.Call) and dotted(q.func) in ("np.arctan", "math.atan")
+                                    and len(q.args) == 1 and isinstance(q.args[0], ast.BinOp) and isinstance(q.args[0].op, ast.Div)]
+                            if quot:
+                                ok = False
+                        why = (f"phase `{ast.unparse(quot[0])[:60]}` is the one-argument arctan of a quotient - the quadrant of the "
+                               "phase is lost (use arctan2 of numerator and denominator)") if quot else \
+                            f"modulus of `{z}` but phase `{ast.unparse(nxt)[:20]}` - the argument / sign of `{z[:40]}` is lost"
+                        ctx.ob(rule, f.site, ok, "" if ok else f"`{ast.unparse(c)[:60]}`: {why}", role=f"polar:{cn}", line=c.lineno)
                         break
     return n
